@@ -451,6 +451,13 @@ func (p *sparser) typeName() string {
 	if p.peek().kind != "id" {
 		p.fail("type name expected")
 	}
+	if p.peek().text == "map" && p.toks[p.p+1].kind == "op" && p.toks[p.p+1].text == "[" {
+		p.next()
+		p.next()
+		k := p.typeName()
+		p.expect("]")
+		return s + "map[" + k + "]" + p.typeName()
+	}
 	s += p.next().text
 	for p.isOp(".") && p.toks[p.p+1].kind == "id" {
 		p.next()
@@ -509,6 +516,13 @@ func (p *sparser) postfix() SExpr {
 			p.next()
 			var args []SExpr
 			for !p.isOp(")") {
+				if name == "box" && len(args) == 0 && p.peek().kind == "id" && p.peek().text == "map" {
+					args = append(args, SIdent{p.typeName()})
+					if p.isOp(",") {
+						p.next()
+					}
+					continue
+				}
 				args = append(args, p.expr())
 				if p.isOp(",") {
 					p.next()
